@@ -539,8 +539,8 @@ def deps(expr, node, defs, _seen=None, depth=0):
         for df in real:
             key = (id(df), d)
             if key in _seen:
-                continue
-            _seen.add(key)
+                continue        # on the current chain of definitions already (loop-carried definition): nothing new behind it
+            _outer, _seen = _seen, _seen | {key}
             if df.kind == "aug":
                 sub = deps(df.stmt.value, df.node, defs, _seen, depth + 1) | deps(df.stmt.target, df.node, defs, _seen, depth + 1)
             elif df.value is None:
@@ -557,18 +557,17 @@ def deps(expr, node, defs, _seen=None, depth=0):
                                     and dotted(c.func.value) == df.var and c.args:
                                 key2 = ("fill", id(c))
                                 if key2 not in _seen:
-                                    _seen.add(key2)
-                                    sub |= {x + "[*]" for x in deps(c.args[-1], st_node, defs, _seen, depth + 1)}
+                                    sub |= {x + "[*]" for x in deps(c.args[-1], st_node, defs, _seen | {key2}, depth + 1)}
                             if isinstance(c, ast.Assign):
                                 for t in c.targets:
                                     if isinstance(t, ast.Subscript) and dotted(t.value) == df.var:
                                         key2 = ("fill", id(c))
                                         if key2 not in _seen:
-                                            _seen.add(key2)
-                                            sub |= {x + "[*]" for x in deps(c.value, st_node, defs, _seen, depth + 1)}
+                                            sub |= {x + "[*]" for x in deps(c.value, st_node, defs, _seen | {key2}, depth + 1)}
             if df.kind in ("iter", "unpack"):
                 sub = {s + "[*]" for s in sub}
             out |= {s + suffix for s in sub} if suffix else sub
+            _seen = _outer
         if any(x.kind == "param" for x in rd):
             out.add(d)
     return out
